@@ -56,6 +56,16 @@ func (g *Gen) confLine() string {
 		parts = append(parts, "rlimit="+strconv.Itoa(350+g.r.Intn(600)))
 	case "evict":
 		parts = append(parts, "upmax="+strconv.Itoa(1+g.r.Intn(4)))
+	case "refs":
+		if g.r.Intn(2) == 0 {
+			parts = append(parts, "rlimit="+strconv.Itoa(300+g.r.Intn(900)))
+		}
+	case "raw":
+		for _, k := range []string{"push", "del", "bdel", "ref"} {
+			if g.r.Intn(4) == 0 {
+				parts = append(parts, k+"=0")
+			}
+		}
 	}
 	return strings.Join(parts, " ")
 }
@@ -469,11 +479,278 @@ func (g *Gen) run(n int) {
 			for i := 0; i < k; i++ {
 				g.uploadStep(offs, recv)
 			}
+		case "tags":
+			g.tagsUsed = []string{"t1", "t2", "t3", "A", "_x", "a.b-c", "t10"}
+			k := 8 + g.r.Intn(30)
+			for i := 0; i < k; i++ {
+				g.tagsStep()
+			}
+		case "refs":
+			k := 8 + g.r.Intn(30)
+			for i := 0; i < k; i++ {
+				g.refsStep()
+			}
+		case "raw":
+			k := 10 + g.r.Intn(30)
+			for i := 0; i < k; i++ {
+				g.rawStep()
+			}
+		case "isolation":
+			g.repos = []string{"r1", "r2", "r1/sub", "r1/sub/x", "r", "r1-", "blobs", "r1/blobs", "index.json", "a/oci-layout/b"}
+			offs, recv := map[int]int{}, map[int]string{}
+			k := 10 + g.r.Intn(30)
+			for i := 0; i < k; i++ {
+				g.isolationStep(offs, recv)
+			}
 		default:
 			k := 6 + g.r.Intn(28)
 			for i := 0; i < k; i++ {
 				g.step()
 			}
 		}
+	}
+}
+
+// ---- tags profile: tag moves, multi-tagging, deletes by tag and digest, listing with every class of n and last
+
+func (g *Gen) simpleImage(repo string) string {
+	// a valid image whose config is pushed first
+	c := g.pick([]string{"c1", "c2", "c3"})
+	has := false
+	for _, b := range g.blobsIn[repo] {
+		if b == c {
+			has = true
+		}
+	}
+	if !has {
+		out := g.emit("UPOST " + repo + " digest=sha256:" + c + " body=" + c)
+		if strings.HasPrefix(out, "201 ") {
+			g.blobsIn[repo] = append(g.blobsIn[repo], c)
+		}
+	}
+	return g.defBody("image", []string{"mt=ocim", "cfg=sha256:" + c, "cfgmt=cfg", "layers=", "subj=", "at=", "ann=" + g.pick([]string{"", "k=v", "k=w"})})
+}
+
+func (g *Gen) tagsStep() {
+	repo := "r1"
+	if g.r.Intn(8) == 0 {
+		repo = "r2"
+	}
+	switch g.r.Intn(12) {
+	case 0, 1, 2, 3: // push under a tag (new image or an existing one: multi-tagging, tag moves)
+		var name string
+		if len(g.manIn[repo]) > 0 && g.r.Intn(2) == 0 {
+			name = g.pick(g.manIn[repo])
+		} else {
+			name = g.simpleImage(repo)
+		}
+		out := g.emit(fmt.Sprintf("MPUT %s %s ct=ocim body=%s", repo, g.pick(g.tagsUsed), name))
+		if strings.HasPrefix(out, "201 ") {
+			g.manIn[repo] = append(g.manIn[repo], name)
+			g.manMT[name] = "ocim"
+		}
+	case 4: // untagged push by digest
+		name := g.simpleImage(repo)
+		out := g.emit(fmt.Sprintf("MPUT %s sha256:%s ct=ocim body=%s", repo, name, name))
+		if strings.HasPrefix(out, "201 ") {
+			g.manIn[repo] = append(g.manIn[repo], name)
+			g.manMT[name] = "ocim"
+		}
+	case 5: // delete a tag
+		g.emit(fmt.Sprintf("MDEL %s %s", repo, g.pick(g.tagsUsed)))
+	case 6: // delete by digest
+		if len(g.manIn[repo]) > 0 {
+			g.emit(fmt.Sprintf("MDEL %s sha256:%s", repo, g.pick(g.manIn[repo])))
+		} else {
+			g.emit(fmt.Sprintf("MDEL %s sha256:?3", repo))
+		}
+	case 7, 8, 9: // listing
+		line := "TAGS " + repo
+		if g.r.Intn(3) != 0 {
+			line += " n=" + g.pick([]string{"0", "1", "1", "2", "3", "5", "100", "-1", "-7", "x", "", "9223372036854775807", "9223372036854775808", "99999999999999999999", "+2", "1.5"})
+		}
+		if g.r.Intn(3) == 0 {
+			line += " last=" + g.pick([]string{"t1", "t2", "t10", "a", "zz", "T", "A", "_", "t"})
+		}
+		g.emit(line)
+	case 10: // resolve a tag
+		g.emit(fmt.Sprintf("MGET %s %s accept=ocim", repo, g.pick(g.tagsUsed)))
+	case 11: // read by digest
+		if len(g.manIn[repo]) > 0 {
+			g.emit(fmt.Sprintf("MHEAD %s sha256:%s accept=ocim,ocii", repo, g.pick(g.manIn[repo])))
+		}
+	}
+}
+
+// ---- refs profile: artifacts by tag and digest, deletes, filters, small limits, cache parameters
+
+func (g *Gen) refsStep() {
+	repo := "r1"
+	if g.r.Intn(6) == 0 {
+		repo = "r2"
+	}
+	switch g.r.Intn(14) {
+	case 0: // a subject
+		name := g.simpleImage(repo)
+		ref := g.pick([]string{"t1", "sha256:" + name})
+		out := g.emit(fmt.Sprintf("MPUT %s %s ct=ocim body=%s", repo, ref, name))
+		if strings.HasPrefix(out, "201 ") {
+			g.manIn[repo] = append(g.manIn[repo], name)
+			g.manMT[name] = "ocim"
+			g.subjects = append(g.subjects, "sha256:"+name)
+		}
+	case 1, 2, 3, 4, 5: // an artifact
+		sj := "sha256:?2"
+		if len(g.subjects) > 0 && g.r.Intn(6) != 0 {
+			sj = g.pick(g.subjects)
+		} else if g.r.Intn(3) == 0 {
+			sj = g.pick([]string{"sha512:?2", "bad:3"})
+		}
+		g.subjects = append(g.subjects, sj)
+		c := "c1"
+		has := false
+		for _, b := range g.blobsIn[repo] {
+			if b == c {
+				has = true
+			}
+		}
+		if !has {
+			if out := g.emit("UPOST " + repo + " digest=sha256:c1 body=c1"); strings.HasPrefix(out, "201 ") {
+				g.blobsIn[repo] = append(g.blobsIn[repo], c)
+			}
+		}
+		var name, ct string
+		if g.r.Intn(4) == 0 {
+			ct = g.pick([]string{"ocii", "dockl"})
+			name = g.defBody("index", []string{"mt=" + ct, "children=", "subj=" + sj, "at=" + g.pick([]string{"", "x/a", "x/b"}), "ann=" + g.pick([]string{"", "k=v", "a=b;c=d"})})
+		} else {
+			ct = g.pick([]string{"ocim", "ocim", "dockm"})
+			cfgmt := g.pick([]string{"cfg", "empty"})
+			if ct == "dockm" {
+				cfgmt = "dcfg"
+			}
+			name = g.defBody("image", []string{"mt=" + ct, "cfg=sha256:c1", "cfgmt=" + cfgmt, "layers=", "subj=" + sj, "at=" + g.pick([]string{"", "x/a", "x/b"}), "ann=" + g.pick([]string{"", "k=v", "n=" + strconv.Itoa(g.bodyN)})})
+		}
+		ref := g.pick([]string{"t1", "t2", "t3", "sha256:" + name, "sha256:" + name, "sha512:" + name})
+		out := g.emit(fmt.Sprintf("MPUT %s %s ct=%s body=%s", repo, ref, ct, name))
+		if strings.HasPrefix(out, "201 ") {
+			g.manIn[repo] = append(g.manIn[repo], name)
+			g.manMT[name] = ct
+			if g.r.Intn(3) == 0 {
+				g.subjects = append(g.subjects, "sha256:"+name) // referrers of referrers
+			}
+		}
+	case 6: // delete by digest
+		if len(g.manIn[repo]) > 0 {
+			g.emit(fmt.Sprintf("MDEL %s %s%s", repo, g.pick([]string{"sha256:", "sha256:", "sha512:"}), g.pick(g.manIn[repo])))
+		}
+	case 7: // delete a tag
+		g.emit(fmt.Sprintf("MDEL %s %s", repo, g.pick([]string{"t1", "t2", "t3"})))
+	default: // referrers
+		sj := "sha256:?2"
+		if len(g.subjects) > 0 && g.r.Intn(8) != 0 {
+			sj = g.pick(g.subjects)
+		}
+		line := fmt.Sprintf("REFS %s %s", repo, sj)
+		if g.r.Intn(3) == 0 {
+			line += " at=" + g.pick([]string{"x/a", "x/b", "cfg", "empty", "zz"})
+		}
+		out := g.emit(line)
+		// follow the Link chain, sometimes on another repository or subject, sometimes with a stale page
+		for hops := 0; hops < 4 && strings.Contains(out, "link=next(cache="); hops++ {
+			rest := out[strings.Index(out, "link=next(cache=")+len("link=next(cache="):]
+			cache := rest[:strings.Index(rest, ",page=")]
+			page := rest[strings.Index(rest, ",page=")+6:]
+			page = page[:strings.Index(page, ")")]
+			tr, tsj := repo, sj
+			switch g.r.Intn(10) {
+			case 0:
+				tr = "r2"
+			case 1:
+				if len(g.subjects) > 0 {
+					tsj = g.pick(g.subjects)
+				}
+			}
+			l2 := fmt.Sprintf("REFS %s %s", tr, tsj)
+			if i := strings.Index(line, " at="); i >= 0 {
+				l2 += line[i:]
+			}
+			out = g.emit(l2 + " cache=" + cache + " page=" + page)
+		}
+		if g.r.Intn(4) == 0 {
+			g.emit(line + " cache=" + g.pick([]string{"sha256:?9", "bad:1", sj}) + " page=" + g.pick([]string{"1", "2", "-1", "x", "0"}))
+		}
+		if g.r.Intn(3) == 0 {
+			g.emit(line)
+		}
+	}
+}
+
+// ---- raw profile: arbitrary methods and paths
+
+func (g *Gen) rawStep() {
+	methods := []string{"GET", "GET", "HEAD", "POST", "PUT", "PATCH", "DELETE", "OPTIONS", "FOO"}
+	repos := []string{"r1", "r1/sub", "R1", "r1_", "r-1", "r1//x", "a__b", "a___b", "blobs", "r1/index.json", "-r", "r1/.", "r1/../r2", "%2e%2e", "r.1"}
+	tails := []string{"/tags/list", "/manifests/t1", "/manifests/sha256:?3", "/manifests/bad:1", "/blobs/sha256:c1", "/blobs/bad:2", "/blobs/uploads", "/blobs/uploads/",
+		"/blobs/uploads/xyz", "/referrers/sha256:?2", "/referrers/bad:1", "/tags", "/tags/list/x", "/manifests", "/unknown/x", "/manifests/t1/extra", ""}
+	if g.r.Intn(6) == 0 {
+		g.step()
+		return
+	}
+	var path string
+	switch g.r.Intn(10) {
+	case 0:
+		path = g.pick([]string{"/", "/v2", "/v2/", "/v1", "/v2/..", "/../v2/", "//v2//", "/v2/./", "", "/v3/r1/tags/list"})
+	default:
+		path = "/v2/" + g.pick(repos) + g.pick(tails)
+		if g.r.Intn(10) == 0 {
+			path += "/"
+		}
+	}
+	// digest tokens inside raw paths are written as tokens and translated by the interpreter
+	g.emit("RAW " + g.pick(methods) + " " + path)
+}
+
+// ---- isolation profile: the same contents and session ids used across repository names
+
+func (g *Gen) isolationStep(offs map[int]int, recv map[int]string) {
+	repo := g.pick(g.repos)
+	other := g.pick(g.repos)
+	switch g.r.Intn(12) {
+	case 0, 1:
+		g.pushBlob(repo)
+	case 2: // mount from another repository
+		c := g.pick([]string{"c1", "c2", "l1", "zz"})
+		g.noteSession(g.emit("UPOST " + repo + " mount=sha256:" + c + " from=" + g.pick(append(append([]string{}, g.repos...), "../r1", "r1/../r2", "..", "r1/", "/r1"))))
+	case 3: // read in another repository what was pushed here
+		if len(g.blobsIn[repo]) > 0 {
+			g.emit(g.pick([]string{"BGET", "BHEAD"}) + " " + other + " sha256:" + g.pick(g.blobsIn[repo]))
+		}
+	case 4:
+		g.pushManifest(repo)
+	case 5:
+		if len(g.manIn[repo]) > 0 {
+			g.emit(fmt.Sprintf("MGET %s sha256:%s accept=ocim,ocii,dockm,dockl", other, g.pick(g.manIn[repo])))
+		} else {
+			g.emit(fmt.Sprintf("MGET %s t1 accept=ocim,ocii,dockm,dockl", other))
+		}
+	case 6:
+		g.noteSession(g.emit("UPOST " + repo))
+	case 7: // a session id used against another repository
+		sid := g.sessTok()
+		g.emit("UPATCH " + other + " " + sid + " state=" + strconv.Itoa(offs[sessNum(sid)]) + " body=aa")
+	case 8:
+		sid := g.sessTok()
+		g.emit(g.pick([]string{"UGET", "UDEL"}) + " " + other + " " + sid)
+	case 9:
+		g.emit("TAGS " + other)
+	case 10:
+		sj := "sha256:?2"
+		if len(g.subjects) > 0 {
+			sj = g.pick(g.subjects)
+		}
+		g.emit("REFS " + other + " " + sj)
+	case 11:
+		g.emit("BDEL " + other + " sha256:" + g.pick([]string{"c1", "c2", "l1"}))
 	}
 }
